@@ -10,6 +10,7 @@ sys.path.insert(0, '/verif')
 
 from vf import catalogue, pipeline, report, witness
 from vf.annotate import annotate, Undecided
+from vf.refgen import error_enum_shape_problem
 from vf.report import Outcome
 
 CLAIMED = ['C01', 'C02', 'C03', 'C04', 'C05', 'C06', 'C07', 'C09', 'C10', 'C11', 'C12', 'C13', 'C14', 'C16']
@@ -34,10 +35,15 @@ def verus_part(out: Outcome, prop: str, decls, tag=None):
     out.extra['verus_dump_build_s'] = round(dr.build_s, 1)
     anns = []
     rejected = {}
+    shape_failed = {}
     by_id = {d.id: d for d in decls}
     for d in decls:
         if d.id in dr.rustc_rejected and 'compile_error' not in dr.dumps.get(d.id, '') and 'mod __nutype_' in dr.dumps.get(d.id, ''):
             rejected[d.id] = 'rustc: ' + dr.rustc_rejected[d.id][:200]
+            continue
+        pb = error_enum_shape_problem(d, dr.dumps[d.id]) if 'mod __nutype_' in dr.dumps[d.id] else None
+        if pb:
+            shape_failed[d.id] = pb
             continue
         try:
             a = annotate(d, dr.dumps[d.id])
@@ -97,7 +103,7 @@ def verus_part(out: Outcome, prop: str, decls, tag=None):
             else:
                 # not a verification failure: unsupported construct / type error
                 msg = dg['message']
-                if in_spec and re.search(r'no variant|no associated item|not found in|non-exhaustive|pattern', msg) and prop in ('C07', 'C01'):
+                if in_spec and re.search(r'no variant|no associated item|not found in|non-exhaustive|pattern', msg) and prop in ('C07', 'C01', 'C02'):
                     key = '%s::error_enum_shape' % did
                     failed.setdefault(key, {'backend': 'verus(rustc)', 'message': msg, 'detail': dg['rendered'], 'decl': did})
                 else:
@@ -116,6 +122,10 @@ def verus_part(out: Outcome, prop: str, decls, tag=None):
                                         'declaration': a.decl.source().strip(), 'backend': 'verus'})
         if prop == 'C07' and a.decl.has_validation and a.decl.custom_validation is None:
             nobl += 1   # error_enum_shape (type-checks the wildcard-free spec match against the enum)
+    for did, pb in shape_failed.items():
+        if prop in ('C01', 'C02', 'C07'):
+            nobl += 1
+            failed['%s::error_enum_shape' % did] = {'backend': 'dump-read', 'message': pb, 'detail': pb, 'decl': did}
     nfailed = len([k for k in failed])
     out.obligations += nobl
     out.discharged += max(0, nobl - nfailed)
